@@ -390,7 +390,10 @@ UpdateSettings(ep, c) ==
        IF u.code # 0
        THEN CR(IF u.S # ep.ls THEN Mark([c1.ep EXCEPT !.ls = u.S], "update_settings_partial") ELSE c1.ep,
                Exc("InvalidSettingsValueError", u.code))
-       ELSE CR(Emit([c1.ep EXCEPT !.ls = u.S, !.lsF = Append(@, c.s)], <<FSettings(c.s)>>), OK)
+       ELSE \* the frame serialiser (hyperframe) writes only the low 8 bits of a setting identifier
+            LET wire == [i \in 1..Len(c.s) |-> <<c.s[i][1] % 256, c.s[i][2]>>]
+                e1 == [c1.ep EXCEPT !.ls = u.S, !.lsF = Append(@, c.s)]
+            IN CR(Emit(IF wire # c.s THEN Mark(e1, "setting_id_truncated") ELSE e1, <<FSettings(wire)>>), OK)
 
 AdvertiseAltSvc(ep, c) ==
   IF c.org # <<>> /\ c.sid # <<>> THEN CR(ep, Exc("ValueError", -1))
@@ -560,7 +563,7 @@ RecvSettings(ep, f) ==
            frame == IF ep.lsF = <<>> THEN <<>> ELSE Collapse(ep.lsF[1])         \* the frame this ACK answers
            strict == [i \in 1..Len(frame) |-> <<frame[i][1], frame[i][2]>>]
            asBuilt == [i \in 1..Len(a.ch) |-> <<a.ch[i][1], a.ch[i][3]>>]
-           hts == SelectSeq(frame, LAMBDA q : q[1] = 1)
+           hts == SelectSeq(frame, LAMBDA q : q[1] % 256 = 1)       \* as the peer reads the identifiers (low 8 bits)
            ht == ChangeOf(a.ch, 1)
            e0 == [c1.ep EXCEPT !.ls = a.S, !.lsF = IF @ = <<>> THEN @ ELSE Tail(@),
                                !.peerEnc = IF hts = <<>> THEN @ ELSE hts[1][2],
